@@ -431,6 +431,10 @@ static uint64_t amount_of(int64_t code, uint64_t cap)
         case 101: return UINT64_C(1) << 63;
         case 102: return UINT64_MAX;
         case 103: return (cap == CMB_UNLIMITED) ? 7 : cap;
+        case 104: return (UINT64_C(1) << 63) - 5u;
+        case 105: return UINT64_C(1) << 62;
+        case 106: return UINT64_MAX - 10u;
+        case 107: return (UINT64_C(1) << 63) + 3u;
         default:  return (uint64_t)(code % 8);
     }
 }
